@@ -187,4 +187,54 @@ theorem keyLE_total (comps : List String) (lower : List Char → List Char) (lik
   simp only [keyLE, Bool.or_eq_true, decide_eq_true_eq]
   exact List.le_total _ _
 
+/-! ### code-point-wise case mappings -/
+
+theorem expand_append (f : Char → List Char) (a b : List Char) :
+    expand f (a ++ b) = expand f a ++ expand f b := by simp [expand]
+
+theorem unitOn_append (f : Char → List Char) (a b : List Char) :
+    unitOn f (a ++ b) = (unitOn f a && unitOn f b) := by simp [unitOn]
+
+theorem expand_length_of_unit (f : Char → List Char) :
+    ∀ s, unitOn f s = true → (expand f s).length = s.length
+  | [], _ => rfl
+  | x :: xs, h => by
+    simp only [unitOn, List.all_cons, Bool.and_eq_true, beq_iff_eq] at h
+    have ih := expand_length_of_unit f xs (by simpa [unitOn] using h.2)
+    simp only [expand, List.flatMap_cons, List.length_append, List.length_cons] at ih ⊢
+    omega
+
+/-- a name whose folded form starts with the folded fragment is at least as long as the
+fragment, when neither the fragment nor the first `|fragment|` characters of the (public) name
+contain a code point that folds to several -/
+theorem length_le_of_expand_prefix (f : Char → List Char) (like str suffix : List Char)
+    (hp : expand f like <+: expand f str) (hl : unitOn f like = true)
+    (hn : unitOn f ((str ++ suffix).take like.length) = true) : like.length ≤ str.length := by
+  apply Classical.byContradiction
+  intro hlt
+  have hlt : str.length < like.length := by omega
+  have ht : (str ++ suffix).take like.length = str ++ suffix.take (like.length - str.length) := by
+    rw [List.take_append, List.take_of_length_le (by omega)]
+  rw [ht, unitOn_append] at hn
+  have hs : unitOn f str = true := by
+    cases h : unitOn f str <;> simp_all
+  have h1 := expand_length_of_unit f str hs
+  have h2 := expand_length_of_unit f like hl
+  have := hp.length_le
+  omega
+
+/-- ... and then the first `|fragment|` characters of the name fold to the folded fragment -/
+theorem expand_take_eq (f : Char → List Char) (like str : List Char)
+    (hp : expand f like <+: expand f str) (hl : unitOn f like = true)
+    (hn : unitOn f (str.take like.length) = true) (hk : like.length ≤ str.length) :
+    expand f (str.take like.length) = expand f like := by
+  have h1 : expand f (str.take like.length) <+: expand f str := by
+    refine ⟨expand f (str.drop like.length), ?_⟩
+    rw [← expand_append, List.take_append_drop]
+  have hlen : (expand f (str.take like.length)).length = (expand f like).length := by
+    rw [expand_length_of_unit f _ hn, expand_length_of_unit f _ hl, List.length_take]
+    omega
+  have := List.prefix_of_prefix_length_le h1 hp (by omega)
+  exact this.eq_of_length hlen
+
 end JediModel.Completion
